@@ -161,6 +161,31 @@ def run(ctx, rep):
     else:
         rep.missing("R16.3", va)
 
+    # ---------- R16.3b the extension test of validate_args and the format dispatch in Controller::run agree
+    def ext_tests(path):
+        tbx = ev.tb(path)
+        out_ = set()
+        if not tbx:
+            return None
+        for i, n in tbx.walk():
+            if n["k"] == "Call" and any((x.get("fn") or "").endswith("Path::extension") for a in n["args"] for _, x in tbx.walk(a) if x["k"] == "Call"):
+                fn_ = (n.get("fn") or "")
+                nm = fn_.split("::")[-1]
+                if nm in ("unwrap", "expect", "is_none", "is_some"):
+                    continue
+                if nm in ("eq", "ne"):
+                    nm = "exact-compare"
+                lits = tuple(sorted(x["str"] for a in n["args"] for _, x in tbx.walk(a) if x["k"] == "Lit" and "str" in x))
+                if lits:
+                    out_.add((nm, lits))
+        return out_
+    ev_a = ext_tests(va) if va in f.fns else None
+    ev_b = ext_tests(cr) if cr in f.fns else None
+    rep.check(bool(ev_a) and ev_a == ev_b, "R16.3", "R16.3|extension_tests_agree",
+              "validate_args and Controller::run test the statistics-file extension the same way: %s" % sorted(ev_a or []), va,
+              "validate_args tests the extension with %s but Controller::run dispatches on %s: a file accepted by validation can hit the controller's panic branch after the input was processed" % (
+                  sorted(ev_a or []), sorted(ev_b or [])))
+
     # ---------- R16.4 display options only display
     disp = {
         "mute_errors": {CTRL + "process_stats", CTRL + "run", "fastpasta::analyze::validators::link_validator::LinkValidator::<T, C>::report_rdh_error",
